@@ -8,6 +8,8 @@ import Driver.Sflow
 import Driver.Mirror
 import Driver.Options
 import Driver.Pipeline
+import Driver.Producer
+import Driver.Locks
 open Driver Vflow
 
 /-- driver state: one model template cache per protocol, reset by `new` -/
@@ -42,6 +44,10 @@ def handle (st : DState) (line : String) : DState × String :=
   | ["sflow", f, d] => (st, sflowLine f d)
   | ["dissect", p, h] => (st, dissectLine p h)
   | ["pipeline", proto, workers, _setup, data] => (st, pipelineLine proto workers data)
+  | ["cachestress", seed, g, overlap, _, _] => (st, locksLine false seed g overlap)
+  | ["cachestress9", seed, g, overlap, _, _] => (st, locksLine true seed g overlap)
+  | ["producerx", rm, n, w, d] => (st, producerxLine rm n w d)
+  | ["producer", proto, rm, seed, n, events] => (st, producerLine proto rm seed n events)
   | ["options", env, file, args] => (st, optionsLine env file args)
   | ["mirror", proto, src, dst, port, max, payload] => (st, mirrorLine proto src dst port max payload)
   | _ => (st, "bad-op")
